@@ -366,6 +366,19 @@ pub fn check(case: &Case, st: &mut Stats, in_process: usize, processes: usize) -
         st.count("panic(routed to C16)");
         return Ok(());
     }
+    // (a0) the same source under another input name: the result may only differ by that name (nothing
+    // of an earlier compilation of this process, its input name included, may show in a later one)
+    {
+        let renamed = Opts { filename: "second_name.c".to_string(), ..opts.clone() };
+        let again = dump(&cc::compile_str(&src, &renamed));
+        let expected = first.replace("main.c", "second_name.c");
+        if again != expected {
+            return Err(format!(
+                "C05-same-process: the same source compiled under another input name differs by more than the name: {}",
+                first_diff(&expected, &again)
+            ));
+        }
+    }
     // (a) same process, interleaved with other programs
     let others: Vec<String> = HISTORY.with(|h| h.borrow().clone());
     for i in 0..in_process {
